@@ -1,3 +1,4 @@
+@dt.setter
 def spec(self, value):
     value = argtest.gt('dt', value, 0, float)
     setattr(self.__owner(), self.__attributes.dt, value)
